@@ -6,6 +6,7 @@ another process), then one or two writes arrive.  DuplicateUidError iff another 
 current state holds that UID; a refused write changes nothing.
 """
 
+import xv
 from xv import ctx
 from xv.core import Harness, run
 from xv.env import mstore
@@ -202,7 +203,7 @@ finally:
     shutil.rmtree(d)
 '''
     p = subprocess.run(["/venv/bin/python", "-c", script, json.dumps(list(args)), part, str(n)],
-                       capture_output=True, text=True, cwd="/repo", env={"PATH": os.environ.get("PATH", "")})
+                       capture_output=True, text=True, cwd=xv.REPO, env={"PATH": os.environ.get("PATH", ""), "PYTHONPATH": xv.REPO})
     if p.returncode != 0:
         return (None, "real replay failed to run: " + p.stderr[-400:])
     ok, detail = json.loads(p.stdout.strip().splitlines()[-1])
